@@ -323,6 +323,27 @@ impl Engine for C06 {
                 let after = vec![simple_rec(100 + bi, false, if j % 2 == 0 { Via::LibSync } else { Via::LibAsync })];
                 out.push(Case { keys: keys.clone(), recs: recs.clone(), damages: vec![BDamage::CutAt(j)], after });
             }
+            // long damaged tails behind the records (readers that look at the end of a big
+            // bucket only must still find the records in front of it)
+            for (gi, (total, line)) in [(70_000usize, 100usize), (300_000, 5000), (300_000, 400_000), (1_100_000, 100), (1_100_000, 65_536)].into_iter().enumerate() {
+                let after = if gi % 2 == 0 { vec![] } else { vec![simple_rec(130 + bi, false, if gi % 4 == 1 { Via::LibSync } else { Via::LibAsync })] };
+                out.push(Case { keys: keys.clone(), recs: recs.clone(), damages: vec![BDamage::GarbageTail { total, line, salt: (bi * 7 + gi) as u64 }], after });
+            }
+            // the last record written by the library once more, verbatim, after every
+            // single-bit flip of the bytes around its start (a re-insert must be effective
+            // whatever happened to the copy in front of it)
+            if let Some(last) = recs.last().filter(|r| r.key == 0 && matches!(r.via, Via::LibSync | Via::LibAsync)) {
+                let last_len = reffmt::encode_record(&to_rec(&keys, last), EmitStyle { ascii: false, reversed: false }).len();
+                let start = len - last_len;
+                for bit in start.saturating_sub(2) * 8..(start + 3).min(len) * 8 {
+                    for via in [Via::LibSync, Via::LibAsync] {
+                        out.push(Case { keys: keys.clone(), recs: recs.clone(), damages: vec![BDamage::FlipBit(bit)], after: vec![RecSpec { via, ..last.clone() }] });
+                    }
+                }
+                for j in [start, start + 1, len - 1] {
+                    out.push(Case { keys: keys.clone(), recs: recs.clone(), damages: vec![BDamage::CutAt(j)], after: vec![last.clone()] });
+                }
+            }
             for bit in 0..len * 8 {
                 let after = if bit % 4 == 0 { vec![simple_rec(100 + bi, bit % 8 == 0, if bit % 3 == 0 { Via::LibSync } else { Via::LibAsync })] } else { vec![] };
                 out.push(Case { keys: keys.clone(), recs: recs.clone(), damages: vec![BDamage::FlipBit(bit)], after });
@@ -331,20 +352,26 @@ impl Engine for C06 {
         out
     }
     fn exhaustive_note(&self, tier: Tier) -> String {
-        format!("{} buckets of 2-4 records: every cut length and every single-bit flip of the file, each followed by a library append; one non-ASCII bucket with a record fragment starting at every byte offset appended as a line", tier.pick(4, 12))
+        format!("{} buckets of 2-4 records: every cut length and every single-bit flip of the file, each followed by a library append; long garbage tails (70 KiB .. 1.1 MiB) behind the records; the last record re-inserted verbatim after damage around its start; one non-ASCII bucket with a record fragment starting at every byte offset appended as a line", tier.pick(4, 12))
     }
     fn random_cases(&self, tier: Tier) -> u32 {
         tier.pick(2000, 50000)
     }
     fn strategy(&self, _tier: Tier) -> BoxedStrategy<Case> {
-        (gen::key_pool(2, 3), vec(rec_spec(3, true), 1..6), vec(gen::bdamage(), 1..4), vec(rec_spec(3, true), 0..3))
-            .prop_map(|(keys, recs, damages, after)| {
+        (gen::key_pool(2, 3), vec(rec_spec(3, true), 1..6), vec(gen::bdamage(), 1..4), vec(rec_spec(3, true), 0..3), prop::bool::weighted(0.25))
+            .prop_map(|(keys, recs, damages, after, again)| {
                 let n = keys.len();
                 let fix = |mut r: RecSpec| {
                     r.key = r.key.min(n - 1);
                     r
                 };
-                Case { keys, recs: recs.into_iter().map(fix).collect(), damages, after: after.into_iter().map(fix).collect() }
+                let recs: Vec<RecSpec> = recs.into_iter().map(fix).collect();
+                let mut after: Vec<RecSpec> = after.into_iter().map(fix).collect();
+                if again {
+                    // the last record once more, verbatim
+                    after.insert(0, recs.last().unwrap().clone());
+                }
+                Case { keys, recs, damages, after }
             })
             .boxed()
     }
@@ -430,5 +457,6 @@ fn bdamage_name(d: &BDamage) -> &'static str {
         BDamage::AppendLineFrom(_) => "duplicated_fragment_as_line",
         BDamage::BecomeDir => "become_dir",
         BDamage::CrBeforeLf(_) => "crlf_terminated_record",
+        BDamage::GarbageTail { .. } => "long_garbage_tail",
     }
 }
